@@ -157,6 +157,11 @@ CLAIM = dict(
           "fake clock; undocumented exceptions of a method body are reported as model/implementation mismatches (the property "
           "names no permitted failures other than the rejection of a missing argument)."),
     technique="Lean 4 theorems over a hand-written model + translator for signatures/constants/method bodies (wire rules) + differential correspondence + Lean spec as oracle")
+CLAIM["note"] += (" UNOBSERVED RUNS (third session): every program of the reuse stream (kept context objects entered again: the canonical "
+                  "loop `core = mc(p=3); for x, y in chips: with mc(x=x, y=y), core: command`, update / nested re-entry beneath a kept object, "
+                  "random interleavings with optional commands) is run a second time with the harness NOT calling get_context_arguments() at "
+                  "the block boundaries - the question itself can refresh what the implementation remembers between two commands; such runs "
+                  "are judged by their commands (wire oracle) and the final context.")
 
 THEOREMS = ["signatures_wellformed", "every_method_has_rule", "precedence", "precedence_accepted", "ctxLookup_innermost",
             "default_param", "default_kwonly", "passing_styles_agree",
